@@ -70,8 +70,9 @@ func vpC12Health(maxThr int) {
 // restart the count, thresholds 1 and 2.
 func vpH_C12_T_slow_checker() {
 	thr := 1 + vpChoose("threshold", 2)
-	hc := &vpHealth{maySlow: true}
-	tm := vpTiming{time.Second, 3 * time.Second}
+	hc := &vpHealth{maySlow: true, maxCalls: 3}
+	// also a heartbeat interval shorter than the time a slow check takes (several ticks pass during one check)
+	tm := []vpTiming{{time.Second, 3 * time.Second}, {40 * time.Millisecond, 120 * time.Millisecond}}[vpChoose("timing", 2)]
 	s := vpLeadingInstance(tm, 0, func(cfg *ElectionConfig) {
 		cfg.HealthChecker = hc
 		cfg.MaxConsecutiveFailures = thr
@@ -79,8 +80,9 @@ func vpH_C12_T_slow_checker() {
 	s.st.ttl = 0
 	select {
 	case <-s.demoted:
-	case <-time.After(time.Duration(thr+1)*tm.H + tm.H/2):
+	case <-time.After(time.Duration(thr+1)*(tm.H+150*time.Millisecond) + tm.H/2): // every check may take 150 ms
 	}
+	time.Sleep(200 * time.Millisecond) // a check in flight has answered
 	vpQuiesce()
 	vpCover("C12.slow-checker")
 	run, at := 0, -1
@@ -245,5 +247,31 @@ func vpH_C12_T_quick_reelection() {
 	vpCover("C12.quick-reelection")
 	vpAssert("C12.exactly-at-n", s.cb.demotes == d0+1 && !s.e.IsLeader())
 	vpAssert("C12.never-before-n", vpImplies(s.cb.demotes == d0+1, s.cb.demoteAt >= t2+int64(2*H)))
+	_ = s.e.Stop()
+}
+
+// vpH_C12_T_reconnect_in_streak: connection monitoring and a health checker together; the checker reports
+// unhealthy at every tick (threshold 3) and in the middle of the streak the connection blips (disconnect,
+// reconnect, successful verification). Connection events are not health verdicts: the leader is demoted at its
+// third consecutive unhealthy tick all the same.
+func vpH_C12_T_reconnect_in_streak() {
+	H := time.Second
+	hc := &vpHealth{forceUnhealthy: true}
+	vpConnCfgMod = func(cfg *ElectionConfig) {
+		cfg.HealthChecker = hc
+		cfg.MaxConsecutiveFailures = 3
+	}
+	s := vpConnInstance(H, 0, nil)
+	s.kv.opLeft = 40
+	t0 := vpNow()
+	time.Sleep(H + 200*time.Millisecond)
+	s.notify(0)
+	time.Sleep(H)
+	s.notify(1)
+	time.Sleep(2 * H)
+	vpQuiesce()
+	vpCover("C12.reconnect-in-streak")
+	vpAssert("C12.exactly-at-n", s.cb.demotes == 1 && !s.e.IsLeader() && len(hc.verdicts) == 3)
+	vpAssert("C12.exactly-at-n:time", vpImplies(s.cb.demotes == 1, s.cb.demoteAt <= t0+int64(3*H)+int64(200*time.Millisecond)))
 	_ = s.e.Stop()
 }
